@@ -1,9 +1,10 @@
 (* C09 -- Notations defined by expansion compile like their hand-expanded form.  Statements only.
    Model: Model/Expansion.v (the linker's COMPONENTS OF pass and the selection type, next to the meaning of the
-   notations).  The proved part: one linking step is right when the notation comes last in the list and the referenced
-   types (SEQUENCE in a SEQUENCE, SET in a SET) are already expanded; the selection type picks the named alternative.
-   That the pass as a whole is right is FALSE of the code (two refuted theorems = two known findings; a third, COMPONENTS OF
-   a SET type, was repaired in /repo and is now an Example); value references in constraints,
+   notations).  The proved part: the whole pass yields the expansion for every chain of COMPONENTS OF that is not circular
+   and whose notations come last in their lists (any depth, any name order, SEQUENCE or SET); one linking step; the
+   selection type picks the named alternative.  For a notation that does not come last the statement is FALSE of the code
+   (one refuted theorem = the known finding C09-components-of-appended; two more, COMPONENTS OF a SET type and chains whose
+   middle type is linked late, were repaired in /repo and are now Examples); value references in constraints,
    parameterized types and class field types are decided by the search (sugared module versus hand-expanded module). *)
 From Coq Require Import NArith List Bool.
 Require Import RasnV.Model.Base RasnV.Model.Driver RasnV.Model.Expansion.
@@ -11,13 +12,13 @@ Require RasnV.Proofs.C09 RasnV.Proofs.C09Chain.
 Import ListNotations.
 
 Theorem C09_components_of_step_partial :
-  forall f ds st n k own refs,
-    (forall r, In r refs -> exists d t,
-         find_def r ds = Some d /\ t_is_seq d = k /\ find_state r st = Some t /\
+  forall f fuel ds st v n k own refs,
+    (forall r, In r refs -> mem_str r v = false /\ exists d t,
+         find_def r ds = Some d /\ t_is_seq d = k /\ find_state r st = Some t /\ l_refs t = [] /\
          l_members t = expand f ds k (t_items d)) ->
-    l_members (link_one st (init_state (mktdef n k (map Own own ++ map ComponentsOf refs)))) =
+    l_members (link_full (S fuel) st v (init_state (mktdef n k (map Own own ++ map ComponentsOf refs)))) =
     expand (S f) ds k (map Own own ++ map ComponentsOf refs).
-Proof. exact Proofs.C09.link_one_meets_spec. Qed.
+Proof. exact Proofs.C09.link_full_meets_spec. Qed.
 
 Theorem C09_selection :
   forall alts alt t, NoDup (map fst alts) -> In (alt, t) alts -> select alts alt = Some t.
@@ -30,13 +31,15 @@ Theorem C09_components_of_appended_refuted :
   linked_members ds Proofs.C09.nT = Some [Proofs.C09.ne; Proofs.C09.na].
 Proof. exact Proofs.C09.components_of_appended_refuted. Qed.
 
-Theorem C09_components_of_chain_refuted :
+(* a chain whose middle type is linked after the type that includes it: refuted until the fix of
+   C09-components-of-chain-order (the outer type got [flag; label]), now an instance of C09_pass_acyclic_chain *)
+Example C09_components_of_chain_linked :
   let ds := [mktdef Proofs.C09.nA true [Own Proofs.C09.n_id];
              mktdef Proofs.C09.nM true [Own Proofs.C09.n_label; ComponentsOf Proofs.C09.nA];
              mktdef Proofs.C09.nZ true [Own Proofs.C09.n_flag; ComponentsOf Proofs.C09.nM]] in
   expanded_members ds Proofs.C09.nZ = Some [Proofs.C09.n_flag; Proofs.C09.n_label; Proofs.C09.n_id] /\
-  linked_members ds Proofs.C09.nZ = Some [Proofs.C09.n_flag; Proofs.C09.n_label].
-Proof. exact Proofs.C09.components_of_chain_refuted. Qed.
+  linked_members ds Proofs.C09.nZ = Some [Proofs.C09.n_flag; Proofs.C09.n_label; Proofs.C09.n_id].
+Proof. exact Proofs.C09.components_of_chain_linked. Qed.
 
 (* COMPONENTS OF a SET type: refuted until the fix of the SET case, now an instance of C09_pass_depth_one with k = false *)
 Example C09_components_of_set_linked :
@@ -60,16 +63,19 @@ Example C09_pass_depth_one_applies :
   expanded_members ds Proofs.C09.nT = Some [Proofs.C09.ne; Proofs.C09.na].
 Proof. vm_compute. split; reflexivity. Qed.
 
-(* ... and for chains of ANY depth, whenever in every list of the chain the COMPONENTS OF entries come last and every
-   referenced type (of the same kind) sorts after the type that refers to it -- the pass runs in descending name order, so
-   that type is finished before.  Outside this shape the two refuted theorems above apply. *)
-Theorem C09_pass_ordered_chain :
-  forall ds h n,
-    NoDup (map t_name ds) -> ordered_chain ds h n -> linked_members ds n = expanded_members ds n.
-Proof. exact Proofs.C09Chain.link_pass_ordered_chain_any. Qed.
+(* ... and for chains of ANY depth in ANY name order, SEQUENCE or SET: whenever the chain headed by n is not circular -- there
+   is a rank that decreases along the references, bounded by the number of definitions as the height of a type in its chain
+   is -- and the COMPONENTS OF entries come last in every list of the chain.  Invariant over the fold: every definition is
+   either as parsed or finished (nothing pending, members = expansion); a referenced type that is not finished is linked on
+   a copy first, and the rank shows that neither the visiting list nor the removed entry ever hides a reference. *)
+Theorem C09_pass_acyclic_chain :
+  forall ds (rank : str -> nat),
+    (forall y, rank y <= length ds) ->
+    forall n, NoDup (map t_name ds) -> acyclic_chain ds rank n -> linked_members ds n = expanded_members ds n.
+Proof. exact Proofs.C09Chain.link_pass_acyclic. Qed.
 
-Example C09_pass_ordered_chain_applies :
-  NoDup (map t_name Proofs.C09Chain.ds_ordered) /\ ordered_chain Proofs.C09Chain.ds_ordered 3 Proofs.C09.nA /\
-  3 <= length Proofs.C09Chain.ds_ordered /\
-  linked_members Proofs.C09Chain.ds_ordered Proofs.C09.nA = Some [Proofs.C09.n_flag; Proofs.C09.n_label; Proofs.C09.n_id].
-Proof. exact Proofs.C09Chain.ordered_chain_applies. Qed.
+Example C09_pass_acyclic_chain_applies :
+  NoDup (map t_name Proofs.C09Chain.ds_chain) /\ (forall y, Proofs.C09Chain.rank_chain y <= length Proofs.C09Chain.ds_chain) /\
+  acyclic_chain Proofs.C09Chain.ds_chain Proofs.C09Chain.rank_chain Proofs.C09.nZ /\
+  linked_members Proofs.C09Chain.ds_chain Proofs.C09.nZ = Some [Proofs.C09.n_flag; Proofs.C09.n_label; Proofs.C09.n_id].
+Proof. exact Proofs.C09Chain.acyclic_chain_applies. Qed.
